@@ -895,7 +895,7 @@ package kafka
 //@ func (*Generation).CommitOffsets
 //@   option noframe
 //@   modifies heap
-//@   callsite (*Conn).offsetCommit requires forall i :: 0 <= i && i < len($1.Topics) ==> haskey(offsets, $1.Topics[i].Topic) && (forall j :: 0 <= j && j < len($1.Topics[i].Partitions) ==> (exists p int :: haskey(offsets[$1.Topics[i].Topic], p) && int32(p) == $1.Topics[i].Partitions[j].Partition && offsets[$1.Topics[i].Topic][p] == $1.Topics[i].Partitions[j].Offset))
+//@   callsite iface coordinator.offsetCommit requires forall i :: 0 <= i && i < len($1.Topics) ==> haskey(offsets, $1.Topics[i].Topic) && (forall j :: 0 <= j && j < len($1.Topics[i].Partitions) ==> (exists p int :: haskey(offsets[$1.Topics[i].Topic], p) && int32(p) == $1.Topics[i].Partitions[j].Partition && offsets[$1.Topics[i].Topic][p] == $1.Topics[i].Partitions[j].Offset))
 //@   loop 0 invariant forall i :: 0 <= i && i < len(topics) ==> haskey(offsets, topics[i].Topic) && (forall j :: 0 <= j && j < len(topics[i].Partitions) ==> (exists p int :: haskey(offsets[topics[i].Topic], p) && int32(p) == topics[i].Partitions[j].Partition && offsets[topics[i].Topic][p] == topics[i].Partitions[j].Offset))
 //@   loop 1 invariant haskey(offsets, topic)
 //@   loop 1 invariant partitions == offsets[topic]
